@@ -36,7 +36,7 @@ func makeAdditionalAnyJSONObjects(r schema.RuleASTNode) AdditionalPropertiesAnyJ
 		s = AdditionalPropertiesAnyJsonItem{
 			Type: internal.StringRef(r.Value),
 		}
-	case internal.StringFloat:
+	case internal.StringFloat, string(schema.SchemaTypeDecimal):
 		s = AdditionalPropertiesAnyJsonItem{
 			Type: internal.StringRef(internal.StringNumber),
 		}
